@@ -424,6 +424,8 @@ Plan genCodec(const std::string& prop, int tier, uint64_t batchSeed, uint64_t id
                     else
                         m.set("mtype", 0).set("mtype0", 1).set("len", r.range(1, 40));
                 }
+                if ((c07 || c08 || c10) && r.chance(1, 12))
+                    m.set("pver", r.chance(1, 2) ? r.range(1, 3) : r.range(1, 255));  // this packet brings a protocol version of its own
                 if (manyFrames && i == 0)
                 {
                     // one frame per message: 250..600 of them
@@ -487,7 +489,8 @@ Plan genReasm(const std::string& prop, int tier, uint64_t batchSeed, uint64_t id
     // one run in six: many endpoints on ONE device with random stream ids (or one stream on many devices), so that
     // keys which collide in one coordinate - and in the buckets of a hash table - are present at the same time
     const bool crowd = r.chance(1, 6);
-    const size_t nNodes = crowd ? 5 + r.below(4) : 1 + r.below(4);
+    // (one crowd in three is a big one: 17..40 endpoints, past fixed-size inline tables and the first rehashes)
+    const size_t nNodes = crowd ? (r.chance(1, 3) ? 17 + r.below(24) : 5 + r.below(4)) : 1 + r.below(4);
     auto eps = g.pickEndpoints(crowd ? 1 : nNodes);
     if (crowd)
     {
@@ -514,8 +517,10 @@ Plan genReasm(const std::string& prop, int tier, uint64_t batchSeed, uint64_t id
         // slow links with large gaps produce deep interleavings
         if (r.chance(1, 2))
             n.set("gap", r.pick<int64_t>({5, 17, 40, 100}));
+        if (nNodes >= 17)
+            n.set("gap", 6000 + static_cast<int64_t>(r.below(3000)));  // everybody is still mid-message when the last one starts
     }
-    const int maxSeg = tier ? 300 : 40;
+    const int maxSeg = tier ? 300 : (nNodes >= 17 ? 6 : 40);
     const size_t nOpsPerNode = crowd ? 1 + r.below(2) : 1 + r.below(5);
     std::vector<int> order;
     for (size_t i = 0; i < nNodes; ++i)
